@@ -10,7 +10,7 @@ import (
 
 	vp8 "github.com/deepteams/webp/verifharness/ref/xvp8"
 	"golang.org/x/image/vp8l"
-	xwebp "golang.org/x/image/webp"
+	"github.com/deepteams/webp/verifharness/ref/xwebp"
 )
 
 // YUV holds tight planes of the visible picture.
